@@ -180,6 +180,23 @@ func (c12) Run(c *fw.Ctx) {
 			return false
 		}
 	}
+	// the local call runs under the same watchdog (a change that blocks the shared read path blocks the harness too)
+	local := func(kind string, desc fw.J, f func()) bool {
+		if hung {
+			return false
+		}
+		done := make(chan struct{})
+		go func() { f(); close(done) }()
+		select {
+		case <-done:
+			return true
+		case <-time.After(90 * time.Second):
+			hung = true
+			c.Violationf("local-request-hangs:"+kind, desc, "%s on the local directory did not return within 90 s", kind)
+			c.Env.State["c12_server_hung"] = true
+			return false
+		}
+	}
 	pair := func(kind string, desc fw.J, lerr, rerr error, cmp func() string) {
 		if hung {
 			return
@@ -251,7 +268,10 @@ func (c12) Run(c *fw.Ctx) {
 		escaped := strings.ContainsAny(rel, " +%&#ü")
 		switch r.Intn(9) {
 		case 0, 1, 2, 3:
-			lh, lt, lerr := wcmd.VerifReadWhisperFile(served, rel, sel, u32(from), u32(until), u32(now))
+			var lh *wt.Header
+			var lt wcmd.TimeSeriesList
+			var lerr error
+			local("view", fw.J{"file": rel, "archive": sel}, func() { lh, lt, lerr = wcmd.VerifReadWhisperFile(served, rel, sel, u32(from), u32(until), u32(now)) })
 			var rh *wt.Header
 			var rt wcmd.TimeSeriesList
 			var rerr error
@@ -277,7 +297,10 @@ func (c12) Run(c *fw.Ctx) {
 				return tslEqual(lt, rt)
 			})
 		case 4, 5:
-			lh, lp, lerr := wcmd.VerifReadWhisperFileRaw(served, rel, sel)
+			var lh *wt.Header
+			var lp wcmd.PointsList
+			var lerr error
+			local("view_raw", fw.J{"file": rel, "archive": sel}, func() { lh, lp, lerr = wcmd.VerifReadWhisperFileRaw(served, rel, sel) })
 			var rh *wt.Header
 			var rp wcmd.PointsList
 			var rerr error
@@ -294,7 +317,10 @@ func (c12) Run(c *fw.Ctx) {
 		case 6:
 			item := []string{caseDir + ".itemA", caseDir + ".itemB", caseDir + ".deep.er", caseDir + ".emptyitem", caseDir + ".nosuch", caseDir + ".broken", caseDir + ".broken"}[r.Intn(7)]
 			pat := []string{"*.wsp", "*.wsp", "plain.wsp", "zz*.wsp", "*"}[r.Intn(5)]
-			lh, lt, lerr := wcmd.VerifSumWhisperFile(served, item, pat, sel, u32(from), u32(until), u32(now))
+			var lh *wt.Header
+			var lt wcmd.TimeSeriesList
+			var lerr error
+			local("sum", fw.J{"item": item, "pattern": pat, "archive": sel}, func() { lh, lt, lerr = wcmd.VerifSumWhisperFile(served, item, pat, sel, u32(from), u32(until), u32(now)) })
 			var rh *wt.Header
 			var rt wcmd.TimeSeriesList
 			var rerr error
@@ -307,7 +333,9 @@ func (c12) Run(c *fw.Ctx) {
 			})
 		case 7:
 			pat := []string{caseDir + "/*/*.wsp", caseDir + "/itemA/*", caseDir + "/deep/er/*.wsp", caseDir + "/zz*/*.wsp", caseDir + "/[", caseDir + "/itemA/with*", caseDir + "/*/*%*", caseDir + "/item*/*.wsp", caseDir + "/*/er/*.wsp", caseDir + "/edge/*", caseDir + "/edge/*.wsp*"}[r.Intn(11)]
-			ln, lerr := wcmd.VerifGlobFiles(served, pat)
+			var ln []string
+			var lerr error
+			local("files", fw.J{"pattern": pat}, func() { ln, lerr = wcmd.VerifGlobFiles(served, pat) })
 			var rn []string
 			var rerr error
 			remote("files", fw.J{"pattern": pat}, func() { rn, rerr = wcmd.VerifGlobFiles(u, pat) })
@@ -322,7 +350,9 @@ func (c12) Run(c *fw.Ctx) {
 			})
 		default:
 			pat := []string{caseDir + "/*", caseDir + "/item*", caseDir + "/deep/*", caseDir + "/zz*", caseDir + "/[a", caseDir + "/*/*", caseDir + "/*/er", caseDir + "/deep*/*"}[r.Intn(8)]
-			ln, lerr := wcmd.VerifGlobItems(served, pat)
+			var ln []string
+			var lerr error
+			local("items", fw.J{"pattern": pat}, func() { ln, lerr = wcmd.VerifGlobItems(served, pat) })
 			var rn []string
 			var rerr error
 			remote("items", fw.J{"pattern": pat}, func() { rn, rerr = wcmd.VerifGlobItems(u, pat) })
